@@ -118,8 +118,23 @@ HexahedralMeshTopologyKernel::add_cell(std::vector<HalfFaceHandle> _halffaces, b
         // Assume right ordering at the user's risk
         return TopologyKernel::add_cell(std::move(_halffaces), _topologyCheck);
     }
+    // In a hexahedron the two halffaces of each axis (x-front/x-back, ...) share no vertex. The
+    // halfedge-level tests below cannot see this: a closed surface of six quads on eight vertices
+    // that is not a cube passes them.
+    auto opposite_pairs_disjoint = [this](const std::vector<HalfFaceHandle>& _hfs) {
+        for(size_t axis = 0; axis < 3; ++axis) {
+            std::set<VertexHandle> front;
+            for(const auto &heh: TopologyKernel::halfface(_hfs[2*axis]).halfedges())
+                front.insert(TopologyKernel::halfedge(heh).from_vertex());
+            for(const auto &heh: TopologyKernel::halfface(_hfs[2*axis+1]).halfedges())
+                if(front.count(TopologyKernel::halfedge(heh).from_vertex()) > 0) return false;
+        }
+        return true;
+    };
+
     if(check_halfface_ordering(_halffaces)) {
         // The order is okay :)
+        if(!opposite_pairs_disjoint(_halffaces)) return TopologyKernel::InvalidCellHandle;
         return TopologyKernel::add_cell(std::move(_halffaces), _topologyCheck);
     }
 
@@ -170,6 +185,8 @@ HexahedralMeshTopologyKernel::add_cell(std::vector<HalfFaceHandle> _halffaces, b
 #endif
         return TopologyKernel::InvalidCellHandle;
     }
+
+    if(!opposite_pairs_disjoint(ordered_halffaces)) return TopologyKernel::InvalidCellHandle;
 
     return TopologyKernel::add_cell(std::move(ordered_halffaces), _topologyCheck);
 }
